@@ -124,6 +124,9 @@ def grant (s : St) (t a : Nat) (det : Bool) : St :=
   if det then decRc { s1 with acc := upd s1.acc a .released } t (s.grp a)
   else { s1 with acc := upd s1.acc a (.granted 0) }
 
+/-- what the harness receiver reports when the continuation of `a` runs -/
+def ackOf (det : Bool) (a : Nat) : Option Nat := if det then none else some a
+
 /-- Does the grant of a detached access destroy the group's shared state? -/
 def grantDies (s : St) (a : Nat) (det : Bool) : Bool := det && decide (s.rc (s.grp a) = 1)
 
@@ -200,7 +203,7 @@ def step (s : St) : Ev → Option St
   | .xchg t g cls =>
     match s.dn g, s.head g with
     | .pend t', some q =>
-      if t' = t ∧ cls = clsOf q then
+      if t' = t ∧ g < s.ng ∧ cls = clsOf q then
         some { s with head := upd s.head g none, dn := upd s.dn g (.drain t q) }
       else none
     | _, _ => none
@@ -209,7 +212,7 @@ def step (s : St) : Ev → Option St
     | .drain t' (a :: rest) =>
       match s.acc a with
       | .queued det =>
-        if t' = t ∧ s.grp a = g ∧ ack = (if det then none else some a) ∧ died = grantDies s a det then
+        if t' = t ∧ s.grp a = g ∧ ack = ackOf det a ∧ died = grantDies s a det then
           some (grant { s with dn := upd s.dn g (.drain t rest) } t a det)
         else none
       | _ => none
